@@ -101,6 +101,17 @@ class Unit(Translator):
             a = [this] + P.call_args(callee, args)
             if cn in self.throwing_fns or self.opts.get('all_calls_may_throw'): P.note_throw()
             return self._wrap_ret(callee, '%s(%s)' % (cn, ', '.join(a)))
+        md = self.decl.get(mid) if mid else None
+        if callee is None and md is not None and md.get('kind') == 'CXXMethodDecl' and (md.get('virtual') or md.get('pure')):
+            # declared-only virtual method (pure virtual): bodiless dispatcher that must get a contract from the spec
+            q = self.fn_qname(md)
+            disp = 'dispatch_' + sanitize(short_ns(q))
+            self.virtual_dispatch[disp] = md
+            self.proto_only[disp] = md
+            this = P.ex(obj) if is_arrow else P.addr(obj)
+            a = [this] + P.call_args(md, args)
+            self.call_graph.setdefault(P.cname, set()).add(disp)
+            return self._wrap_ret(md, '%s(%s)' % (disp, ', '.join(a)))
         ot = P.ty(obj)
         if is_arrow:
             if ot.kind == 'ptr': ot = ot.to
